@@ -22,7 +22,8 @@ package main
 //              trigger: for some year file, replaying the reader's buffer arithmetic (capacity = 4 x sum of
 //              the compressed interval sizes, doubled at most once per interval) over the model's
 //              intervals overflows; compressed sizes are obtained by Snappy-compressing the model's
-//              record bytes (payload little-endian + 32-bit tick), taken 10 % smaller to be safe.
+//              record bytes (payload little-endian + 32-bit tick); the replay is done for every capacity within
+//              +-10 % of the model's (the outcome is not monotone in the capacity).
 //   F-PREVYEAR trigger as in C08; as-is: the record is appended to the same slot of the other year, i.e.
 //              comes back shifted by the distance between the two interval starts.
 //   F-JAN1     trigger: timeframe 1D and a record on January 1; as-is: those records are never returned.
@@ -452,29 +453,55 @@ func c09blobs(cs *c09case, upto int) []c09blobStat {
 	return out
 }
 
-// c09overflow replays the reader's buffer arithmetic per year file with compressed sizes scaled by factor.
-func c09overflow(cs *c09case, blobs []c09blobStat, factor float64) bool {
+// c09overflow replays the reader's buffer arithmetic per year file: capacity = 4 x (sum of the compressed
+// interval sizes), doubled at most once per interval when the next interval does not fit, overflow when it
+// still does not fit. The model's compressed sizes may differ a little from the real ones, and the
+// outcome is not monotone in the capacity (a smaller capacity doubles earlier), so the replay is done for
+// every scale factor f in [lo,hi] applied to the sum at once, splitting the range at each comparison.
+// It reports whether an overflow is possible for some f in the range.
+func c09overflow(cs *c09case, blobs []c09blobStat, lo, hi float64) bool {
 	outLen := c09payloadLen(cs) + 4 + 8
 	for i := 0; i < len(blobs); {
 		j := i
 		sum := 0.0
+		var us []float64
 		for j < len(blobs) && blobs[j].year == blobs[i].year {
-			sum += float64(blobs[j].compr) * factor
+			sum += float64(blobs[j].compr)
+			us = append(us, float64(blobs[j].n*outLen))
 			j++
 		}
-		total := 4 * sum
-		cursor := 0.0
-		for x := i; x < j; x++ {
-			u := float64(blobs[x].n * outLen)
-			if cursor+u > total {
-				total *= 2
-			}
-			if cursor+u > total {
-				return true
-			}
-			cursor += u
+		if c09ovf(us, 0, 0, 4*sum, lo, hi) {
+			return true
 		}
 		i = j
+	}
+	return false
+}
+
+// c09ovf: base = capacity for f = 1; the real capacity is f*base for an unknown f in [lo,hi].
+func c09ovf(us []float64, i int, cursor, base, lo, hi float64) bool {
+	if lo > hi || base <= 0 {
+		return base <= 0 && len(us) > 0
+	}
+	for ; i < len(us); i++ {
+		need := cursor + us[i]
+		th := need / base // f < th: the interval does not fit, the capacity is doubled
+		if th <= lo {
+			cursor = need
+			continue
+		}
+		if th <= hi {
+			// f in [th,hi] continues without doubling
+			if c09ovf(us, i+1, need, base, th, hi) {
+				return true
+			}
+			hi = th
+		}
+		base *= 2
+		if need/base > lo {
+			return true // for the smallest f of the range the doubled capacity is still too small
+		}
+		cursor = need
 	}
 	return false
 }
@@ -485,7 +512,7 @@ func c09gen(c *runner.Ctx) *c09case {
 		return cs
 	}
 	for q := range cs.reqs {
-		if c09overflow(cs, c09blobs(cs, q), 0.7) {
+		if c09overflow(cs, c09blobs(cs, q), 0.7, 1.3) {
 			return c09build(c, true)
 		}
 	}
@@ -791,7 +818,7 @@ func c09run(c *runner.Ctx) runner.Result {
 		p, st := recoverStack(func() { tbl, fourH, qerr = queryAllObserved(inst, key, cs.tf.name) })
 		res.Count("queries", 1)
 		if p != "" {
-			trigS := c09overflow(cs, blobs, 0.9)
+			trigS := c09overflow(cs, blobs, 0.9, 1.1)
 			if trigS && strings.Contains(p, "slice bounds out of range") && strings.Contains(st, "readSecondStage") {
 				res.Count("snappy_panics", 1)
 				res.Known("F-SNAPPY", fmt.Sprintf("%s bucket, unrestricted query after request %d (%d records, %d bytes on disk compressed to about %d) panicked: %s", cs.tf.name, q, nRecs, raw, compr, p), c09witness(cs, q, nil, blobs))
@@ -894,7 +921,7 @@ func init() {
 		ID:    "C09",
 		Level: "exploration",
 		Rule: "case = one variable-length bucket on a fresh instance: timeframe (all ten, rotating), 1-6 value columns (column 0 = record id, others by payload shape scaled-id / random / ramp / constant / all-zero / identical records), 2-3 years, 1-6 intervals (first/second/last interval of a year, Feb 28/29, Mar 1, random), 1-5 requests each appending 1-300 records to a subset of the intervals (3000-6000 identical records in the F-SNAPPY stratum), nanosecond offsets 0, 1, res-1, res, interval-1, whole seconds (+-1..6 ns), last second, random, per-interval time modes mixed/same/ramp/random, request order shuffled/sorted/grouped; after requests the unrestricted query is judged against the multiset/time oracle. " +
-			"21 of 25 cases stay clear of every known trigger (payload re-drawn as random when the F-SNAPPY condition would hold with compressed sizes 30 % smaller than the model's), 4 of 25 aim at F-SNAPPY (two kinds), F-PREVYEAR, F-JAN1. Non-trivial: records written and a query judged; distinct by (timeframe, stratum, payload shape, #intervals, max records per interval bucket, repeated appends)",
+			"21 of 25 cases stay clear of every known trigger (payload re-drawn as random when the F-SNAPPY condition could hold with compressed sizes within +-30 % of the model's), 4 of 25 aim at F-SNAPPY (two kinds), F-PREVYEAR, F-JAN1. Non-trivial: records written and a query judged; distinct by (timeframe, stratum, payload shape, #intervals, max records per interval bucket, repeated appends)",
 		Assumptions: []string{
 			"instance configured with the UTC time zone and the default Snappy compression of variable-length data",
 			"inline flush: WriteCSM returns after the WAL and the primary write (no background SyncWAL goroutine)",
